@@ -38,6 +38,7 @@ def main():
     if "--src" in sys.argv:
         src = sys.argv[sys.argv.index("--src") + 1]
     thorough = "--thorough" in sys.argv
+    tag = sys.argv[sys.argv.index("--tag") + 1] if "--tag" in sys.argv else ""
     diff = os.path.join(src, "change%s.diff" % n)
     demo = os.path.join(src, "demo%s" % n)
     meta_in = {}
@@ -47,7 +48,7 @@ def main():
         except ValueError:
             meta_in = {"unparsable_meta": True}
     wt = "/tmp/ev-%s-%s-%d" % (pid, n, os.getpid())
-    res = {"property": pid, "n": n, "author_meta": meta_in}
+    res = {"property": pid, "n": n, "tag": tag, "author_meta": meta_in}
     subprocess.check_call([os.path.join(V, "tools", "mkwt.sh"), wt])
     try:
         rc, out = sh("git apply --whitespace=nowarn %s" % diff, wt)
@@ -124,7 +125,7 @@ def finish(res, src, n, diff, demo):
     pid = res["property"]
     ok = res.get("applies") and res.get("builds") and res.get("suite_passes_with_change") and res.get("demo_fails_with_change") and res.get("demo_passes_without")
     res["confirmed"] = bool(ok)
-    d = os.path.join(V, "seeded", "%s-%s" % (pid, n))
+    d = os.path.join(V, "seeded", "%s-%s%s" % (pid, (res.get("tag") + "-") if res.get("tag") else "", n))
     if ok:
         shutil.rmtree(d, ignore_errors=True)
         os.makedirs(d)
@@ -145,7 +146,7 @@ def finish(res, src, n, diff, demo):
                 "quick_exit": res.get("check_quick_rc"), "caught_by_quick": res.get("caught_quick"), "quick_wall_s": res.get("check_quick_s"),
                 "classes": res.get("check_quick_classes"), "caught_by_thorough": res.get("caught_thorough"),
             },
-            "ran": "tools/evalmut.py %s %s" % (pid, n),
+            "ran": "tools/evalmut.py %s %s%s" % (pid, n, (" --tag " + res["tag"]) if res.get("tag") else ""),
         }
         json.dump(meta, open(os.path.join(d, "meta.json"), "w"), indent=1)
     print(json.dumps(res, indent=1))
